@@ -30,6 +30,30 @@ def lit_of(n):
     return None
 
 
+def rule_float(db, rep):
+    """R-FLOAT: shared with C01 (a float printed in a form the lexer rejects breaks the decompile->recompile round trip)"""
+    # ---------------- R-FLOAT
+    ff = db.fn("<f32 as fmt::Format>::fmt")
+    rep.fn(ff)
+    fmt_calls = [t for _, t in ff.calls() if t.get("f", "").startswith("core::fmt::rt::Argument::<'_>::new_") and "f32" in " ".join(t.get("ga", []))]
+    kinds = sorted(set(t["f"].rsplit("::", 1)[-1] for t in fmt_calls))
+    rep.check(bool(kinds) and set(kinds) == {"new_display"}, "R-FLOAT", "f32|display-only", ff.loc, "finite floats are formatted with Display",
+              "f32 is formatted with %s: exponent notation (e.g. 1e-5) is not a FLOAT token" % kinds)
+    lits = [lit_of(n) for n in hir_walk(ff.hir) if lit_of(n) is not None]
+    for need in (".0", "INF", "-INF", "NAN"):
+        rep.check(need in lits, "R-FLOAT", "f32|%s" % need, ff.loc, "prints %r where needed" % need, "the f32 formatter no longer produces %r" % need)
+    # no other float formatting in the formatter module
+    others = []
+    for g in db.fns.values():
+        if g.gen or not g.file.endswith("src/fmt.rs") or g.id == ff.id:
+            continue
+        for _, t in g.calls():
+            if t.get("f", "").startswith("core::fmt::rt::Argument::<'_>::new_") and (t.get("ga") or [""])[0] in ("f32", "&f32", "f64"):
+                others.append((g.id, t["ln"]))
+    rep.check(not others, "R-FLOAT", "fmt.rs|single-float-printer", ff.loc, "floats are only printed by <f32 as Format>::fmt", "floats are also formatted at %s" % others)
+
+
+
 def run(db, tier):
     rep = Report("C08", tier, EXPLANATION, RULE)
     rep.rule("R-GROUP", "grouping is preserved by parentheses wherever an expression has sub-expressions")
@@ -126,25 +150,7 @@ def run(db, tier):
                   "the parser accepts \\%s for %r but the formatter writes %r for that character" % (letter, ch, ft.get(ch)))
     rep.check('"' in ft and "\\" in ft, "R-ESCAPE", "fmt|quote-and-backslash", fs.loc, "`\"` and `\\` are escaped", "the formatter does not escape both `\"` and `\\`")
 
-    # ---------------- R-FLOAT
-    ff = db.fn("<f32 as fmt::Format>::fmt")
-    rep.fn(ff)
-    fmt_calls = [t for _, t in ff.calls() if t.get("f", "").startswith("core::fmt::rt::Argument::<'_>::new_") and "f32" in " ".join(t.get("ga", []))]
-    kinds = sorted(set(t["f"].rsplit("::", 1)[-1] for t in fmt_calls))
-    rep.check(bool(kinds) and set(kinds) == {"new_display"}, "R-FLOAT", "f32|display-only", ff.loc, "finite floats are formatted with Display",
-              "f32 is formatted with %s: exponent notation (e.g. 1e-5) is not a FLOAT token" % kinds)
-    lits = [lit_of(n) for n in hir_walk(ff.hir) if lit_of(n) is not None]
-    for need in (".0", "INF", "-INF", "NAN"):
-        rep.check(need in lits, "R-FLOAT", "f32|%s" % need, ff.loc, "prints %r where needed" % need, "the f32 formatter no longer produces %r" % need)
-    # no other float formatting in the formatter module
-    others = []
-    for g in db.fns.values():
-        if g.gen or not g.file.endswith("src/fmt.rs") or g.id == ff.id:
-            continue
-        for _, t in g.calls():
-            if t.get("f", "").startswith("core::fmt::rt::Argument::<'_>::new_") and (t.get("ga") or [""])[0] in ("f32", "&f32", "f64"):
-                others.append((g.id, t["ln"]))
-    rep.check(not others, "R-FLOAT", "fmt.rs|single-float-printer", ff.loc, "floats are only printed by <f32 as Format>::fmt", "floats are also formatted at %s" % others)
+    rule_float(db, rep)
 
     # ---------------- R-LIST-SEP
     gpath = os.path.join(getattr(db, "repo", "/repo"), "src", "parse", "lalrparser.lalrpop")
